@@ -249,6 +249,10 @@ PROPS["C12"] = {
 
 PROPS["C07"] = {
     "level": "proof",
+    # "which loader path is taken": the native path is the host's own CPython; the portable path's line and position
+    # decoders for the formats a host may hand to it (3.10, 3.11+) are proved against CPython's readers - the contracts of
+    # C05 and C17, discharged here as well (they are the deductive half of the loader-path clause; seconds)
+    "contracts": list(PROPS["C05"]["contracts"]) + list(PROPS["C17"]["contracts"]),
     "ground": [("ground.effects", "check_c07")],
     "bounded": [("ground.hosts", "check")],
     "technique": "frame-style obligation per host-constant read (partial evaluation over the six hosts shows the residual expression is host-independent, or it is a listed switch whose sides are proved equal by C01/C10/C16); bounded differential over the six installed hosts and both loader paths for everything else",
@@ -268,7 +272,7 @@ _T = {
          "the spec functions' adequacy for CPython is bounded: they are compared with dis.findlinestarts / co_lines dumps of 9 interpreters; xdis.lineoffsets (the line -> offsets view) is bounded only: re-derived from findlinestarts and starts_line on the corpus, pre-2.1 code objects excluded because LineOffsetInfo does not accept them."),
  "C06": ("load_module_from_file_object is proved, for the magic of every final CPython release and the PyPy magics of the corpus and for all other header bytes, to return the header fields of that version's .pyc layout and to hand the stream to the code reader positioned right after the header.",
          "the code readers (load_code / marshal.loads / marsh.load) are external with an assumed contract whose precondition (stream position) is the proof obligation; files < 50 bytes rejected earlier."),
- "C08": ("Finite and exhaustive: int2magic/magic2int inverse on all 65536 values, every CPython registry row maps to its release, every accepted magic resolves to a version and an opcode table, release names map to the magic CPython's registry gives.",
+ "C08": ("Finite and exhaustive: int2magic/magic2int inverse on all 65536 values, every CPython registry row maps to its release, every accepted magic resolves to a version and an opcode table, release names map to the magic CPython's registry gives (a name with a patch level: exactly the magic of the registry's latest in-series row tagged with a patch level not above it, e.g. 3.5.0/3.5.1 -> 3350, 3.5.2 and later -> 3351).",
          "registry = magic history comment of importlib/_bootstrap_external.py (3.13.0) + MAGIC_NUMBER of the installed interpreters."),
  "C09": ("Finite and exhaustive: data-structure invariants of all 39 opcode tables and equality with the opcode module of the 9 installed CPythons (opmap, HAVE_ARGUMENT, EXTENDED_ARG, seven category sets, hasarg).",
          "no reference for 1.x-2.6, 3.0-3.5 and PyPy tables: invariants only."),
@@ -292,7 +296,7 @@ _T = {
          "call graph over-approximated by name (see frames.ASSUMPTIONS); import-time table construction (init_opdata, fields2copy) is not reachable from the public operations and is not checked; aliasing: bounded evidence only."),
  "C12": ("Decided deductively: the 'clean' clause and the set of offsets that get a '>>' mark. The word-code label finder (3.6+), whose result the listing marks, is proved per table and for all code bytes to return exactly CPython's dis.findlabels set (the contract of C04; tables 3.8, 3.10-3.13 quick, all word-code tables thorough). Clean: a frame obligation for each of the 228 functions reachable from disassemble_file / pydisasm's main shows that its body has no print() without file=, no print(file=sys.stdout) and no sys.stdout.write (the listing goes to the stream it was given). Totality over the six formats and faithfulness of the classic/bytes listings to the instruction stream (each non-CACHE instruction once, in order, offset, name, operand, '>>' iff jump target, line number iff it starts a line) are checked on the corpus (2 files per version directory quick, all 260+ thorough): bounded.",
          "the per-instruction formatter (string formatting) and the listing loop are outside pyvc's modelled subset (opaque text): bounded evidence only; the instruction stream itself is the subject of C02-C05/C20; two recorded known findings (1.5-2.0 lnotab lines, xasm on PyPy 3.2)."),
- "C07": ("Deductive part: for every expression that reads a host constant (PYTHON_VERSION_TRIPLE, PYTHON3, IS_PYPY, PYTHON_MAGIC_INT, sys.version_info) in a function reachable from the decoding entry points, partial evaluation with the constants of each installed host 3.8-3.13 leaves the same residual expression - the code cannot branch differently on another host - or the expression is one of ten listed switches (fast-path test, default arguments that pick the host's own code type, the host's dis format, the banner) whose two sides are proved equal by C01/C10 (portable reader = format) and C16 (native -> portable field-exact per host). Everything the argument does not reach (text formatting, the host's marshal) is a bounded differential: 43 (quick) / 130+ (thorough) files of versions 2.7-3.13 decoded and listed under each of the six hosts, each 3.8-3.13 file on the native fast path on one host and through xdis's unmarshaller on the others and, on the native host, a second time through xdis's unmarshaller; compared modulo object addresses and the banner.",
+ "C07": ("Deductive part (a): the line-start and 3.11+ location/exception-table decoders of the portable loader path are proved against CPython's readers (the contracts of C05 and C17, discharged under this property too: the native path is the host's own CPython, so these are the deductive half of 'whichever loader path is taken'). Deductive part (b): for every expression that reads a host constant (PYTHON_VERSION_TRIPLE, PYTHON3, IS_PYPY, PYTHON_MAGIC_INT, sys.version_info) in a function reachable from the decoding entry points, partial evaluation with the constants of each installed host 3.8-3.13 leaves the same residual expression - the code cannot branch differently on another host - or the expression is one of ten listed switches (fast-path test, default arguments that pick the host's own code type, the host's dis format, the banner) whose two sides are proved equal by C01/C10 (portable reader = format) and C16 (native -> portable field-exact per host). Everything the argument does not reach (text formatting, the host's marshal) is a bounded differential: 43 (quick) / 130+ (thorough) files of versions 2.7-3.13 decoded and listed under each of the six hosts, each 3.8-3.13 file on the native fast path on one host and through xdis's unmarshaller on the others and, on the native host, a second time through xdis's unmarshaller; compared modulo object addresses and the banner.",
          "the composition of C01/C10/C16 into 'both loader paths agree' is an argument in DESIGN.md section 10.5, not a machine-checked lemma; the host's marshal.loads is trusted; hosts are the six installed interpreters; static analysis assumptions of ground/frames.py; two recorded cosmetic known findings (code-object repr, set element order)."),
  "C14": ("The integer paths of xdis.marsh are proved for every int of any size: w_long/w_short/w_long64 append exactly the little-endian words that read back (two's complement) to the value; dump_int picks 'i'/'I' by range; dump_long writes 'l', the signed digit count and the 15-bit digits of |x| (loop invariants over a positional-notation spec with an induction lemma: the digits sum back to |x|, top digit non-zero, all digits < 2**15); the fast reader's _r_short/_r_long/_r_long64 are proved to decode the same words. dump_float's text is proved to be repr() of the argument framed by its length byte. Other text, complex and container writers/readers are compared with the marshal of hosts 3.8-3.13 by a bounded differential in both directions (dumps/loads, and the file-object forms dump/load: two recorded known findings - both file-object forms are unusable on Python 3).",
          "the byte sink is a ghost sequence of everything written through self._write; chr()/str concatenation modelled for code points < 256; load_long's accumulation (x | d << 15 i with symbolic shift) and all non-integer paths are bounded only; bytes-assembly in dumps() is bounded only."),
